@@ -61,7 +61,7 @@ Theorem C10_fista_nonneg : forall (eps lr sp rg : R) (lin : list R -> list R) (U
 Proof. exact fista_nn. Qed.
 Print Assumptions C10_fista_nonneg.
 
-Theorem C10_active_set_nonneg : forall (support : list R -> list R) (x : list R) (n : nat),
+Theorem C10_active_set_nonneg : forall (support : nat -> list R -> list R) (x : list R) (n : nat),
   vnn x \/ (0 < n)%nat -> vnn (active_set Rops support x n).
 Proof. exact (fun support x n H => match H with or_introl Hx => active_set_nn support x n Hx | or_intror Hn => active_set_ge support x n Hn end). Qed.
 Print Assumptions C10_active_set_nonneg.
@@ -138,10 +138,19 @@ Theorem C10_non_negative_tucker : forall (nrm : list R -> R), (forall v, 0 <= nr
 Proof. exact non_negative_tucker_nonneg. Qed.
 Print Assumptions C10_non_negative_tucker.
 
+Theorem C10_non_negative_tucker_real : forall (T : tensor R) (eps : R) (stop : nat -> @tk_state R -> bool)
+         (normalize : bool) (n_modes n_iter_max : nat) (core : tensor R) (Fs : list (list (list R))),
+  0 < eps -> vnn (data core) -> Forall mnn Fs ->
+  let out := non_negative_tucker Rops nrm2 eps (fun _ => tk_mu_num Rops T) (fun _ => tk_mu_den Rops)
+                                 (fun _ => tk_mu_numc Rops T) (fun _ => tk_mu_denc Rops) stop normalize n_modes n_iter_max (core, Fs) in
+  vnn (data (fst out)) /\ Forall mnn (snd out).
+Proof. exact non_negative_tucker_real. Qed.
+Print Assumptions C10_non_negative_tucker_real.
+
 Theorem C10_non_negative_tucker_hals : forall (nrm : list R -> R), (forall v, 0 <= nrm v) ->
   forall (alg : core_alg) (fista_eps : R) (utm utu : nat -> @tk_state R -> nat -> list (list R)) (inner : nat -> @tk_state R -> nat -> nat)
          (sps : list (option R)) (lr : nat -> @tk_state R -> R) (csp : R) (lin : nat -> @tk_state R -> list R -> list R)
-         (cutm : nat -> @tk_state R -> list R) (betas : nat -> @tk_state R -> list R) (support : nat -> @tk_state R -> list R -> list R)
+         (cutm : nat -> @tk_state R -> list R) (betas : nat -> @tk_state R -> list R) (support : nat -> @tk_state R -> nat -> list R -> list R)
          (as_n : nat -> @tk_state R -> nat) (stop : nat -> @tk_state R -> bool) (normalize : bool) (modes : list nat) (n_iter_max : nat)
          (core : tensor R) (Fs : list (list (list R))),
   0 <= fista_eps -> vnn (data core) -> Forall mnn Fs ->
